@@ -16,7 +16,8 @@ RULE = ("Each case is an abstract expression tree (Spec.Arith.expr) printed with
         "Enumerated completely: every tree of depth <= 2 over all pairs of the 12 infix and 4 prefix operators (both nestings, "
         "2 leaf assignments, all 3 bracket styles around the inner node); every operator on a grid of operand values incl. 0, "
         "negative and boundary values; every number spelling x case variant on a boundary value set. Generated: seeded random trees "
-        "of depth <= 6 over all operators, brackets, spellings, leaves constant / symbolic / address-valued / '.', incl. planted "
+        "of depth <= 6 over all operators, brackets, spellings, leaves constant / symbolic / address-valued (labels, '.', and symbols "
+        "defined as label+-k through chains of up to 3 intermediate symbols in every definition order) incl. planted "
         "errors (division by zero, negative shift, bare 8/9, unencodable character, undefined symbol); values wider than 32 bits "
         "are observed through '((e) >> k) & 37777777777' slices. A fixed list of token lists outside the documented language "
         "(postfix operators, calls, prefix operators in the middle, unclosed brackets, malformed numbers) is compared with the model only. non-trivial = distinct source text containing at least one "
@@ -62,10 +63,58 @@ for base, link in ((0o1000, None), (0o2000, "2000"), (0o100000, "100000"), (0o10
 CONST_VALUES = [0, 1, 2, 3, 5, 7, 8, 0o17, 0o177, 0o377, 0o400, 0o177777, 0o200000, -1, -2, -5, -0o400, 1 << 31, (1 << 32) - 1, -(1 << 31), 12345]
 
 
-def make_layout(rng):
+CHAIN_HEADS = ["xa", "xb", "xc"]
+CHAIN_KS = [-0o100, -7, -3, -2, -1, 1, 2, 3, 5, 0o12, 0o100]
+
+
+def make_chains(rng, base, pad, order=None, place=None, length=None):
+    """Symbols holding ADDRESSES through chains of intermediate symbols:
+         xa = xa1 + k0 ; xa1 = xa2 - k1 ; xa2 = <label or '.'> + k2
+       written in ascending (every definition names a symbol defined further down), descending or
+       shuffled order, before the '.dword', after it, or split around it.  Values known by construction."""
+    dot = base + pad + 2
+    labels = {"lb0": base, "lb1": dot, "la0": dot + 4, "la1": dot + 6}
+    before, after, vals = [], [], {}
+    for h in CHAIN_HEADS:
+        n = length if length is not None else rng.choice([1, 2, 3])
+        names = [h] + [f"{h}{j}" for j in range(1, n + 1)]
+        pl = place or rng.choice(["before", "after", "split"])
+        od = order or rng.choice(["asc", "desc", "shuffled"])
+        target = rng.choice(list(labels) + ["."])
+        ks = [rng.choice(CHAIN_KS) for _ in names]
+        tval = labels[target] if target != "." else (base if pl == "before" else dot + 8)
+        v = tval
+        values = [0] * len(names)
+        for j in range(len(names) - 1, -1, -1):
+            v = v + ks[j]
+            values[j] = v
+        defs = []
+        for j, nm in enumerate(names):
+            rhs = names[j + 1] if j + 1 < len(names) else target
+            defs.append(f"{nm} = {rhs} {'-' if ks[j] < 0 else '+'} {oct(abs(ks[j]))[2:]}")
+        for nm, val in zip(names, values):
+            vals[nm] = val
+        if pl == "split":
+            before.append(defs[0])
+            rest = defs[1:]
+            if od == "desc":
+                rest = rest[::-1]
+            elif od == "shuffled":
+                rng.shuffle(rest)
+            after += rest
+        else:
+            if od == "desc":
+                defs = defs[::-1]
+            elif od == "shuffled":
+                rng.shuffle(defs)
+            (before if pl == "before" else after).extend(defs)
+    return {"before": before, "after": after, "values": vals}
+
+
+def make_layout(rng, **kw):
     base, link, pad = rng.choice(LAYOUTS)
     consts = {"cb0": rng.choice(CONST_VALUES), "cb1": rng.choice(CONST_VALUES), "ca0": rng.choice(CONST_VALUES), "ca1": rng.choice(CONST_VALUES)}
-    return {"base": base, "link": link, "pad": pad, "consts": consts}
+    return {"base": base, "link": link, "pad": pad, "consts": consts, "chains": make_chains(rng, base, pad, **kw)}
 
 
 def layout_syms(lay):
@@ -73,6 +122,7 @@ def layout_syms(lay):
     dot = base + pad + 2
     syms = dict(lay["consts"])
     syms.update({"lb0": base, "lb1": dot, "la0": dot + 4, "la1": dot + 6, "cd0": 4 + pad + 2})
+    syms.update(lay.get("chains", {}).get("values", {}))
     return syms, dot
 
 
@@ -87,6 +137,7 @@ def program(lay, text):
         lines.append(f"\t.link {lay['link']}")
     lines.append(f"cb0 = {lit_text(c['cb0'])}")
     lines.append(f"cb1 = {lit_text(c['cb1'])}")
+    lines += lay.get("chains", {}).get("before", [])
     lines.append("lb0:")
     if lay["pad"]:
         lines.append(f"\t.blkb {oct(lay['pad'])[2:]}")
@@ -94,13 +145,14 @@ def program(lay, text):
     lines.append("lb1:\t.dword " + text)
     lines.append("la0:\t.word 0")
     lines.append("la1:\t.word 0")
+    lines += lay.get("chains", {}).get("after", [])
     lines.append(f"ca0 = {lit_text(c['ca0'])}")
     lines.append(f"ca1 = {lit_text(c['ca1'])}")
     lines.append("cd0 = la0 - lb0")
     return "\n".join(lines) + "\n"
 
 
-NAMES = ["cb0", "cb1", "ca0", "ca1", "lb0", "lb1", "la0", "la1", "cd0"]
+NAMES = ["cb0", "cb1", "ca0", "ca1", "lb0", "lb1", "la0", "la1", "cd0", "xa", "xb", "xc", "xa", "xb", "xa1", "xb1", "xc1"]
 
 
 def observe(lay, out):
@@ -120,7 +172,8 @@ def observe(lay, out):
 # case sets
 def leafsets():
     # two assignments that tell the two groupings of every operator pair apart often enough
-    return [(X.num(0o35), X.num(3), X.num(2)), (X.num(-0o61), X.num(5), X.num(3)), (("sym", "cb0"), ("sym", "la0"), X.num(1))]
+    return [(X.num(0o35), X.num(3), X.num(2)), (X.num(-0o61), X.num(5), X.num(3)), (("sym", "cb0"), ("sym", "la0"), X.num(1)),
+            (("sym", "xa"), ("sym", "xb"), X.num(2))]
 
 
 def depth2_trees():
@@ -194,6 +247,34 @@ def spelling_trees():
     return out
 
 
+def chain_trees():
+    """address-valued symbols under every way the polynomial arithmetic is reached"""
+    S = lambda n: ("sym", n)
+    B = lambda o, l, r: ("bin", o, l, r)
+    out = []
+    for s_, t_ in (("xa", "xb"), ("xb", "xc"), ("xc", "xa1")):
+        s, t = S(s_), S(t_)
+        d = ("grp", "paren", B("BSub", s, t))
+        out += [s, ("un", "UNeg", s), B("BSub", X.num(0), s), ("un", "UNeg", ("un", "UNeg", s)), ("un", "UPlus", s),
+                B("BMul", X.num(2), s), B("BMul", s, X.num(2)), B("BMul", X.num(3), s), B("BMul", s, X.num(-2)),
+                B("BMul", X.num(-1), s), B("BMul", ("sym", "cb1"), s), B("BMul", s, ("sym", "ca0")),
+                B("BSub", S("la0"), s), B("BSub", s, S("lb0")), B("BSub", s, t), B("BSub", t, s), B("BAdd", s, t),
+                B("BSub", B("BMul", X.num(2), s), B("BMul", t, X.num(2))), B("BSub", B("BMul", X.num(3), s), s),
+                B("BAdd", ("un", "UNeg", s), t), B("BSub", X.num(7), ("grp", "angle", B("BAdd", s, X.num(1)))),
+                B("BMul", ("grp", "paren", B("BSub", s, X.num(2))), X.num(2)),
+                B("BDiv", d, X.num(2)), B("BMod", d, X.num(3)), B("BAnd", d, X.num(0o17)), B("BLsh", d, X.num(1)),
+                B("BLsh", d, X.num(-1)), B("BXor", d, X.num(5)), B("BOr", d, X.num(0o100)), ("un", "UInv", d),
+                B("BShl", d, X.num(2)), B("BShr", d, X.num(1)), B("BMul", d, d), B("BMul", d, s),
+                B("BDiv", s, X.num(2)), B("BMod", s, X.num(0o10)), B("BAnd", s, X.num(0o177770)), ("un", "UInv", s),
+                B("BShl", s, X.num(1)), B("BShr", s, X.num(1)), B("BLsh", s, X.num(1)), B("BBang", s, X.num(1)),
+                B("BSub", B("BSub", S("la1"), s), t), B("BSub", ("dot",), s), B("BMul", X.num(2), B("BSub", ("dot",), s)),
+                B("BMul", ("grp", "paren", B("BAdd", s, t)), X.num(2)), B("BSub", ("un", "UNeg", s), ("un", "UNeg", t))]
+    return out
+
+
+CHAIN_LAYOUT_SHAPES = [(o, p, n) for o in ("asc", "desc", "shuffled") for p in ("before", "after", "split") for n in (1, 2, 3)]
+
+
 def finalize(rng, tree, lay, enc):
     """choose how the value is observed so that the stored dword is defined; None if the tree is unusable (too big)"""
     syms, dot = layout_syms(lay)
@@ -214,12 +295,24 @@ def finalize(rng, tree, lay, enc):
 def build_cases(rng, tier, enc, n_random):
     cases = []   # (kind, tree, layout)
     fixed_lay = {"base": 0o1000, "link": None, "pad": 2, "consts": {"cb0": 0o21, "cb1": -5, "ca0": 0o377, "ca1": 1 << 31}}
+    fixed_lay["chains"] = make_chains(random.Random(5), 0o1000, 2, order="asc", place="before", length=2)
     for t in depth2_trees():
         cases.append(("depth2", t, fixed_lay))
     for t in opgrid_trees():
         cases.append(("opgrid", t, fixed_lay))
     for t in spelling_trees():
         cases.append(("spelling", t, fixed_lay))
+    # address-valued symbols through definition chains: every order x placement x chain length, rotating link bases
+    shapes = list(CHAIN_LAYOUT_SHAPES)
+    if tier == "quick":
+        k9 = rng.randrange(9)
+        shapes = [sh for i, sh in enumerate(shapes) if i % 9 == k9] + [("asc", "before", 1), ("asc", "split", 2)]
+    for i, (od, pl, n) in enumerate(shapes):
+        base, link, pad = LAYOUTS[(i * 5 + 1) % len(LAYOUTS)]
+        lay = {"base": base, "link": link, "pad": pad, "consts": dict(fixed_lay["consts"]),
+               "chains": make_chains(rng, base, pad, order=od, place=pl, length=n)}
+        for t in chain_trees():
+            cases.append(("chains", t, lay))
     made = 0
     while made < n_random:
         lay = make_layout(rng)
@@ -344,6 +437,10 @@ def explore(rep, br, tier, seed):
             rep.nontrivial(k)
     rep.exhaustive_parts.append("all trees of depth <= 2 over all 12x12 infix pairs (both nestings), 12x4 infix/prefix combinations, 4x4 prefix pairs, "
                                 "3 leaf assignments; the inner node additionally inside ( ), < >, ^?..? ^/../ ^_.._ ^<..< ^|..| for every pair")
+    rep.exhaustive_parts.append("address-valued symbols (label or '.' +- k through chains of 1-3 intermediate symbols; definition order ascending / "
+                                "descending / shuffled; placed before / after / split around the use; 4 link bases incl. none) under 48 usage "
+                                "templates per symbol pair: -s, 0-s, k*s, s*k, a-s, s-t, s+t, k*s-k*t, and / % & _ ^ | ~ << >> of s and of s-t "
+                                "(thorough: all 27 order x placement x length shapes; quick: 5 of them incl. the all-forward-reference one)")
     rep.exhaustive_parts.append("every infix operator on a 15x15 grid of operand values, every prefix operator on 15 values")
     rep.exhaustive_parts.append("9 number spellings x prefix case x digit case x sign on 21 boundary values; bare 8/9 strings; character and radix-50 literals")
     for i in (0, len(recs) // 3, len(recs) - 7, len(recs) - 1):
